@@ -41,8 +41,15 @@ type invItem struct {
 	eval  func(fr *Frame, st *State, phi map[ssa.Value][]string) (string, error)
 }
 
+type deferredPre struct {
+	goal, reach, text, name string
+	pos                     token.Position
+	props                   []string
+}
+
 // Frame is the symbolic execution of one function body (top level or inlined).
 type Frame struct {
+	deferredPre []deferredPre
 	vc      *VC
 	eng     *Engine
 	fn      *ssa.Function
@@ -710,7 +717,13 @@ func (fr *Frame) run(entryReach string) {
 				if _, ok := fr.reach[p]; !ok {
 					continue
 				}
-				e := fr.vc.bindBool("edge", sAnd(fr.reach[p], fr.edgeCond(p, b)))
+				ec := sAnd(fr.reach[p], fr.edgeCond(p, b))
+				if ec == "false" {
+					// statically dead edge (a branch on a constant, e.g. `if debug.Debug`): the successor is
+					// not executed along it and it takes no part in merges
+					continue
+				}
+				e := fr.vc.bindBool("edge", ec)
 				edges = append(edges, e)
 				sts = append(sts, fr.exit[p])
 				preds = append(preds, p)
